@@ -2,7 +2,7 @@
      opendsm/eemeter/models/hourly_caltrack/segmentation.py (_segment_weights_*, segment_time_series)
      opendsm/eemeter/models/hourly_caltrack/model.py (_PredictionSegmentInfo)
      opendsm/eemeter/models/hourly_caltrack/wrapper.py (HourlyModel.segment_type, month_dict, model_month_dict)
-     opendsm/eemeter/common/features.py (fit_temperature_bins default_bins)
+     opendsm/eemeter/common/features.py (fit_temperature_bins default_bins / min_temperature_count, occupancy threshold)
    Do not edit. A segment is (name, explicit (month, weight) entries, weight of every other month);
    segments are listed in DataFrame column order. *)
 From Coq Require Import ZArith QArith List String Ascii PrimFloat.
@@ -75,6 +75,11 @@ Definition wrapper_segment_type : string := "three_month_weighted"%string.
 (* fit_temperature_bins: the candidate bin endpoints (the same numbers as rationals and as binary64) *)
 Definition default_bins : list Q := [(30 # 1)%Q; (45 # 1)%Q; (55 # 1)%Q; (65 # 1)%Q; (75 # 1)%Q; (90 # 1)%Q].
 Definition default_bins_f : list float := [(0x1.e000000000000p+4)%float; (0x1.6800000000000p+5)%float; (0x1.b800000000000p+5)%float; (0x1.0400000000000p+6)%float; (0x1.2c00000000000p+6)%float; (0x1.6800000000000p+6)%float].
+
+(* fit_temperature_bins(min_temperature_count=...), estimate_hour_of_week_occupancy(threshold=...): the defaults the
+   wrapper runs with (the threshold is the exact value of the binary64 literal) *)
+Definition default_min_temperature_count : nat := 20.
+Definition default_occupancy_threshold : Q := (5854679515581645 # 9007199254740992)%Q.
 
 (* HourlyModel.fit, uncertainty figures: month_dict, and k.replace(A, B).split(SEP)[I] *)
 Definition wrapper_month_dict : list (string * Z) := [("jan"%string, 1%Z); ("feb"%string, 2%Z); ("mar"%string, 3%Z); ("apr"%string, 4%Z); ("may"%string, 5%Z); ("jun"%string, 6%Z); ("jul"%string, 7%Z); ("aug"%string, 8%Z); ("sep"%string, 9%Z); ("oct"%string, 10%Z); ("nov"%string, 11%Z); ("dec"%string, 12%Z)].
